@@ -474,14 +474,24 @@ impl Processor {
         query_id: QueryId,
         shard_transport: ShardTransportImpl,
     ) -> Result<Box<dyn ProtocolResult>, QueryCompletionError> {
-        let handle = {
+        // The query either has its result already (somebody polled the status after the task
+        // finished), or is still running and needs to be awaited.
+        enum Completion<'a> {
+            Ready(Result<Box<dyn ProtocolResult>, ProtocolError>),
+            Pending(CompletionHandle<'a>),
+        }
+
+        let completion = {
             let mut queries = self.queries.inner.lock().unwrap();
 
             match queries.remove(&query_id) {
-                Some(QueryState::Completed(result)) => return result.map_err(Into::into),
+                Some(QueryState::Completed(result)) => Completion::Ready(result),
                 Some(QueryState::Running(handle)) => {
                     queries.insert(query_id, QueryState::AwaitingCompletion);
-                    CompletionHandle::new(RemoveQuery::new(query_id, &self.queries), handle)
+                    Completion::Pending(CompletionHandle::new(
+                        RemoveQuery::new(query_id, &self.queries),
+                        handle,
+                    ))
                 }
                 Some(state) => {
                     let state_error = StateError::InvalidState {
@@ -509,7 +519,10 @@ impl Processor {
                 .await?;
         }
 
-        Ok(handle.await?)
+        match completion {
+            Completion::Ready(result) => result.map_err(Into::into),
+            Completion::Pending(handle) => Ok(handle.await?),
+        }
     }
 
     /// Terminates a query with the given id. If query is running, then it
